@@ -38,6 +38,9 @@ def base_case(
     prelude = plan_opts.pop("prelude", 0.0)
     clear = plan_opts.pop("clear", 0.0)
     cleanup_checkpoint = plan_opts.pop("cleanup_checkpoint", 0.0)
+    pg.nonrewind = plan_opts.pop("nonrewind", 0.0)  # readings taken with rewinding switched off
+    pg.monitor_opts = plan_opts.pop("monitor_opts", 0.0)  # 'monitor' messages carrying subscribe() options
+    pg.watch = plan_opts.pop("watch", 0.0)  # 'wait' messages watching a second group
     preprocessors = []
     if rng.random() < builtin:
         # bluesky's own plans (stage/run decorators, per-step checkpoints), optionally under the SupplementalData
@@ -203,12 +206,14 @@ WINDOW_OF = {"pause": "pausing", "dpause": "pausing", "abort": "aborting", "stop
 def interruption_cases(pid, seed, tier, *, K=(10, 16), kinds=None, dev_faults=0.0, decisions=None, rng=None, base=None, **base_opts):
     rng = rng or gen.rng_for(pid, seed)
     if base is None:
-        base_opts["plan_opts"] = {"builtin": 0.2, "prelude": 0.15, "clear": 0.12, "cleanup_checkpoint": 0.4, **(base_opts.get("plan_opts") or {})}
+        base_opts["plan_opts"] = {"builtin": 0.2, "prelude": 0.15, "clear": 0.12, "cleanup_checkpoint": 0.4, "monitor_opts": 0.4, "watch": 0.2, **(base_opts.get("plan_opts") or {})}
         base = base_case(pid, seed, rng, **base_opts)
         if rng.random() < 0.3:
             base["re"]["context_managers"] = "single_use"  # a user-supplied context manager around every blocking stretch
-    dry, dv, n = dry_run(base)
+    # the fault-free case goes to the oracles first: if it does not even complete (which the generator contract
+    # demands, checked right below) they say what went wrong with it before the contract failure is reported
     yield base
+    dry, dv, n = dry_run(base)
     ci = main_index(base)
     has_sus = bool(base["suspenders"])
     kk = K[0] if tier == "quick" else K[1]
@@ -225,7 +230,8 @@ def interruption_cases(pid, seed, tier, *, K=(10, 16), kinds=None, dev_faults=0.
             # a further request placed inside the transient state the first one creates (pausing, suspending,
             # aborting/stopping/halting while the clean-up runs): windows a few handles wide
             win = WINDOW_OF[inj[0]["do"]]
-            inj.append({"id": "w0", "at": {"state": win, "plus": rng.choice([0, 0, 1, 2, 3, 6])}, "do": rng.choice(kinds)})
+            # (a third of the time the same request again: abort() while aborting, pause while pausing ...)
+            inj.append({"id": "w0", "at": {"state": win, "plus": rng.choice([0, 0, 1, 2, 3, 6, 10])}, "do": inj[0]["do"] if rng.random() < 0.33 else rng.choice(kinds)})
         for i in inj:
             if i["do"] == "trip":
                 i["args"] = trip_args(rng)
